@@ -1,6 +1,6 @@
 /-
   Mux.Proofs.GroupLiftServe — from `Tree.handler` to the `Call` of `Router.serveContext`, for arbitrary incoming
-  parameters; the collision counterexample (hand-built tree).
+  parameters; the former collision table of D30 (hand-built tree), now repaired.
 -/
 import Mux.Proofs.GroupLiftParams
 namespace Mux.P18
@@ -79,14 +79,15 @@ where
     rw [ht]
     simp
 
-/-! ## The collision counterexample
+/-! ## The former collision table (D30), repaired
 
 `/u/{id}/a`, `/u/{id}/c`, `/u/{name}/b` (the tree these three `Handle` calls build; `#eval` of the real history gives
 the same answers): with the incoming parameter `id = v1` (e.g. a path-version matcher with key `id`)
 
-* `GET /u/5/b` is served by `/u/{name}/b` with parameters `{name: 5}` only — `{id}/` matched `5`, overwrote `id`,
-  its subtree missed, and the undo `erase id` deleted the key instead of restoring `v1`;
-* `GET /u/5/z` is a 404 that reports NO parameters, not the incoming ones. -/
+* `GET /u/5/b` is served by `/u/{name}/b`: `{id}/` matched `5`, overwrote `id`, its subtree missed.  Before the D30
+  repair the undo was `erase id`, which deleted the key instead of restoring `v1` (parameters `{name: 5}` only); the
+  repaired undo `restoreParam` writes `v1` back: parameters `{id: v1, name: 5}`;
+* `GET /u/5/z` is a 404 that reports the incoming `{id: v1}` (before the repair: no parameters). -/
 
 def cxSegU : Seg := { value := [47, 117, 47] }
 def cxSegId : Seg := { value := [123, 105, 100, 125, 47], kind := .named, name := [105, 100], suffix := [47] }
@@ -116,13 +117,17 @@ theorem cx_idxLit : Node.All IdxLit cxTree.root := by
   refine ⟨?_, ?_, ?_, ?_, ?_, ?_⟩ <;> exact IdxLit.of_nil rfl
 /-- … `id` is a name of the tree … -/
 theorem cx_collides : ([105, 100] : Bytes) ∈ treeNames cxTree := by decide
-/-- … `GET /u/5/b` with `id = v1` reports `{name: 5}`: the incoming `id` is gone (the `set` fold would be
-`{id: v1, name: 5}`) … -/
+/-- … `GET /u/5/b` with `id = v1` reports `{id: v1, name: 5}`, the `set` fold of the capture over the incoming
+parameters: the abandoned `{id}/` branch left no trace (before the D30 repair: `{name: 5}`, the incoming `id` gone) … -/
 theorem cx_found : (foundOf (cxTree.handler cxEnv [47, 117, 47, 53, 47, 98] cxPs cxGET)).map
       (fun f => (f.node.map (·.pattern), f.ok, f.params)) =
-    some (some cxName.pattern, true, [([110, 97, 109, 101], [53])]) := by decide
-/-- … and the 404 for `GET /u/5/z` reports no parameters at all. -/
+    some (some cxName.pattern, true, [([105, 100], [118, 49]), ([110, 97, 109, 101], [53])]) := by decide
+/-- … and the 404 for `GET /u/5/z` reports exactly the incoming parameters (before the repair: none). -/
 theorem cx_404 : (foundOf (cxTree.handler cxEnv [47, 117, 47, 53, 47, 122] cxPs cxGET)).map
-      (fun f => (f.node.isNone, f.params)) = some (true, []) := by decide
+      (fun f => (f.node.isNone, f.params)) = some (true, [([105, 100], [118, 49])]) := by decide
+/-- Why "one entry per key" is asked of the incoming parameters: with `id` TWICE (`id = v1, id = v2`; no context
+built by `Set` looks like this) the undo of the abandoned `{id}/` branch writes the first value into both entries. -/
+theorem cx_dup : (foundOf (cxTree.handler cxEnv [47, 117, 47, 53, 47, 122] (cxPs ++ [([105, 100], [118, 50])]) cxGET)).map
+      (fun f => (f.node.isNone, f.params)) = some (true, [([105, 100], [118, 49]), ([105, 100], [118, 49])]) := by decide
 
 end Mux.P18
